@@ -261,17 +261,15 @@ where
                                     if attempt == 0 {
                                         primary_error = Some(e.clone());
                                     }
-                                    // Check if all attempts exhausted
+                                    // Every attempt has been started: nothing is left to
+                                    // spawn, but the other attempts may still be running and
+                                    // may succeed. Wait for them below; failure is reported
+                                    // only once all of them have reported.
                                     if hedges_spawned + 1 >= max_attempts {
-                                        // All spawned, check if this was the last result
-                                        config.listeners.emit(&HedgeEvent::AllFailed {
-                                            name: config.name.clone(),
-                                            attempts: hedges_spawned + 1,
-                                            timestamp: Instant::now(),
-                                        });
-                                        return Err(HedgeError::AllAttemptsFailed(
-                                            primary_error.unwrap_or_else(|| e.clone())
-                                        ));
+                                        if primary_error.is_none() {
+                                            primary_error = Some(e.clone());
+                                        }
+                                        break;
                                     }
                                 }
                             }
